@@ -105,7 +105,7 @@ class Interp:
 
     # ------------------------------------------------------------------ modules
     STD = {'dataclasses', 'enum', 'operator', 'typing', 'abc', 'collections', 'collections.abc',
-           'functools', 're', 'itertools', 'bisect', 'contextlib', 'textwrap'}
+           'functools', 're', 'itertools', 'bisect', 'contextlib', 'textwrap', 'unicodedata', 'string', 'math'}
 
     def _std(self, name):
         if name not in self.STD:
